@@ -9,6 +9,7 @@ import Dippy.Model.Analyzer
 import Dippy.Model.Config
 import Dippy.Model.Load
 import Dippy.Model.Hook
+import Dippy.Model.LogFS
 import Dippy.Generated.Tables
 import Dippy.Generated.Hook
 
@@ -480,6 +481,22 @@ def handle (j : Json) : R Json := do
     return Json.arr (outs.map fun o => match o with
       | .json v => Json.mkObj [("json", ofPJson v)]
       | .text t => Json.mkObj [("text", Json.str t)]).toArray
+  | "logrun" =>
+    -- configure_logging(cfg) then one log_decision(...) under a fault schedule
+    let oc (s : String) : Outcome := match s with
+      | "ok" => .ok | "oserror" => .osError | "valueerror" => .valueError | _ => .other
+    let φ : SinkFaults := ⟨oc (strD j "mkdir" "ok"), oc (strD j "open" "ok"), oc (strD j "write" "ok")⟩
+    let cfg := toConfig (j.getObjValD "config")
+    match configureLogging cfg φ with
+    | none => return Json.str "raised:configure"
+    | some st =>
+      match logDecision st φ (strD j "decision" "") (strD j "cmd" "") (optStr j "rule") (optStr j "message") (optStr j "command") "TS" with
+      | none => return Json.str "raised:log"
+      | some (st', line) =>
+        return Json.mkObj [("disabled", st'.disabled), ("configured", st'.path.isSome),
+          ("line", match line with
+            | some kvs => Json.arr (kvs.map fun kv => Json.arr #[Json.str kv.1, Json.str kv.2]).toArray
+            | none => Json.null)]
   | "ping" => return Json.str "pong"
   | other => throw s!"unknown op {other}"
 
